@@ -229,6 +229,10 @@ struct Rig
     // id that must still receive its close
     cfg.maxSessions = sessionCap ? sessionCap + 2 : 0;
     cfg.closeOnBackpressure = true;
+    // every other rig reclaims sync-receive tombstones at (nearly) every close instead of after 1024 closed sessions:
+    // the close fan-out must not depend on that sweep
+    static int rigCount = 0;
+    if (++rigCount % 2 == 0) cfg.syncBufferGcThreshold = 1;
     cfg.idleTimeout = std::chrono::seconds(3600);
     cfg.gcInterval = std::chrono::seconds(3600);
     cfg.connectTimeout = std::chrono::milliseconds(3600 * 1000);
@@ -340,6 +344,11 @@ struct Rig
 
   bool setup()
   {
+    // the connect() interposer still holds the port numbers of the PREVIOUS rig, whose reserved sockets were closed at
+    // its teardown: the kernel may hand one of those numbers to this rig's listener, and the barrier connections below
+    // would then be refused by the interposer (a transient SETUPFAIL, seen once in about 70 runs)
+    inj::syncRefusedPort = -1;
+    inj::eaccesPort = -1;
     if (!tr->start().isOk()) return false;
     if (!udp)
     {
